@@ -3,7 +3,9 @@
 
    Formal object: the effect IR of Model/Effects.v, its concrete store semantics [exec]
    (abstract locations; Write changes the contents of the locations a value OWNS; View / Box /
-   Alias / Extend relate own and reach sets; Seq is prefix-closed = exceptions, return, break)
+   Alias / Extend relate own and reach sets; Seq is prefix-closed = exceptions, return, break;
+   CallDyn = call of a run-time callable: ANY koala function that is ever used as a first-class
+   value, on ARBITRARY argument values, or a foreign effect-free callable returning anything)
    and the abstract may-alias/may-write analysis [no_arg_write].  Gen/EffectsIR.v is the IR of
    today's koala source (translate/effects_ir.py; the Python -> IR step and its
    View/Fresh/Write table are the trusted part, validated by the dynamic run of harness/c15.py).
@@ -12,7 +14,7 @@
    numerical determinism of a call given unchanged inputs (observed by S only). *)
 From Coq Require Import List Bool Arith Lia.
 Import ListNotations.
-From Koala Require Import Model.Effects Gen.EffectsIR Proofs.EffectsFacts Proofs.EffectsKoala.
+From Koala Require Import Model.Effects Gen.EffectsIR Proofs.EffectsFacts Proofs.EffectsKoala Proofs.EffectsMono.
 
 (* ★ analysis_sound — clause "leaves them bit-for-bit unchanged": if the analysis accepts f with
    every formal tainted then in EVERY execution of f's body every location owned by or reachable
@@ -78,6 +80,137 @@ Proof.
 Qed.
 Print Assumptions C15_history_independent.
 
+(* ---- end-to-end: analysis_sound instantiated with koala_pure.  For EVERY entry (f, mask) of the
+   generated list of public functions, for all argument values, all stores and all executions of f's IR
+   body: every location owned by / reachable from the tainted arguments is unchanged at exit.
+   [pure_on_args] (Proofs/EffectsKoala.v) is exactly the conclusion of C15_analysis_sound_mask for prog. *)
+Theorem C15_each_public_function_pure : forall e, In e public_functions ->
+  forall fd argvals st0 st',
+    nth_error prog (fst e) = Some fd ->
+    (forall x, env st0 x = call_env (f_nparams fd) argvals x) ->
+    separated (args_locs (snd e) argvals) (snd e) argvals ->
+    (forall l, In l (args_locs (snd e) argvals) -> l < next st0) ->
+    exec prog (f_body fd) st0 st' ->
+    forall l, In l (args_locs (snd e) argvals) -> heap st' l = heap st0 l.
+Proof. exact koala_public_each_pure. Qed.
+Print Assumptions C15_each_public_function_pure.
+
+(* public functions without an output sink (mask all true): no side condition at all — whatever the
+   aliasing between the arguments, every location reachable from ANY argument is unchanged *)
+Theorem C15_each_public_function_pure_all_args : forall e, In e public_functions ->
+  forallb (fun b : bool => b) (snd e) = true ->
+  forall fd argvals st0 st',
+    nth_error prog (fst e) = Some fd ->
+    length argvals = f_nparams fd ->
+    (forall x, env st0 x = call_env (f_nparams fd) argvals x) ->
+    (forall l, In l (flat_map (fun v => own v ++ reach v) argvals) -> l < next st0) ->
+    exec prog (f_body fd) st0 st' ->
+    forall l, In l (flat_map (fun v => own v ++ reach v) argvals) -> heap st' l = heap st0 l.
+Proof. exact koala_public_each_pure_all_args. Qed.
+Print Assumptions C15_each_public_function_pure_all_args.
+
+Theorem C15_each_extra_function_pure : forall e, In e public_extra -> pure_on_args (fst e) (snd e).
+Proof. exact koala_extra_each_pure. Qed.
+Print Assumptions C15_each_extra_function_pure.
+
+Theorem C15_each_closure_pure : forall e, In e escaping_functions -> pure_on_args (fst e) (snd e).
+Proof. exact koala_escaping_each_pure. Qed.
+Print Assumptions C15_each_closure_pure.
+
+(* the three generated lists are well formed (each entry names an IR function, one mask bit per formal):
+   the hypothesis [nth_error prog (fst e) = Some fd] above is satisfiable for every entry *)
+Theorem C15_entries_wellformed :
+  forallb entry_wf public_functions && forallb entry_wf public_extra && forallb entry_wf escaping_functions = true.
+Proof. exact koala_entries_wf. Qed.
+Print Assumptions C15_entries_wellformed.
+
+(* the same, spelled out for the operations the property's statement names: for each qualified name in
+   [named_operations] (fluxes_from_bonds, find_flux_sector, majorana_hamiltonian, make_dual, cut_boundaries,
+   plot_edges, ... 37 in all) the generated tables contain an entry e = (IR index, taint mask) and
+   [pure_on_args (fst e) (snd e)]: for all argument values, stores and executions of that function's IR body,
+   every location owned by / reachable from its (non-sink) arguments is unchanged.  Names are resolved through
+   the generated table [fnames] by vm_compute, so a renamed or removed operation breaks this theorem. *)
+Theorem C15_named_operations_pure : Forall named_pure named_operations.
+Proof. exact koala_named_operations_pure. Qed.
+Print Assumptions C15_named_operations_pure.
+
+(* ---- meta-theory of the analysis (Proofs/EffectsMono.v) *)
+(* fuel: once the analysis accepts, every larger loop fuel / call-depth fuel gives the SAME answer *)
+Theorem C15_fuel_stable : forall p dynok lf d f avs r,
+  afun p dynok lf d f avs = Some r ->
+  forall lf' d', lf <= lf' -> d <= d' -> afun p dynok lf' d' f avs = Some r.
+Proof. exact afun_fuel_stable. Qed.
+Print Assumptions C15_fuel_stable.
+
+(* ... and less fuel can only fail closed (reject), never give a different answer *)
+Theorem C15_fuel_fail_closed : forall p dynok lf d lf' d' f avs,
+  lf <= lf' -> d <= d' ->
+  afun p dynok lf d f avs = None \/ afun p dynok lf d f avs = afun p dynok lf' d' f avs.
+Proof. exact afun_fuel_fail_closed. Qed.
+Print Assumptions C15_fuel_fail_closed.
+
+(* instance: koala's verdicts (C15_koala_pure, _extra_, _closures_) hold for every loop fuel >= 64 and every
+   call-depth fuel >= |prog|+1, with the same abstract answers: the constants are not tuned to the result *)
+Theorem C15_koala_pure_any_larger_fuel : forall lf d, LOOP_FUEL <= lf -> S (length prog) <= d ->
+  forall e, In e (public_functions ++ public_extra ++ escaping_functions) ->
+    verdict_with_fuel prog lf d (fst e) (snd e) = true.
+Proof. exact koala_pure_any_larger_fuel. Qed.
+Print Assumptions C15_koala_pure_any_larger_fuel.
+
+(* soundness holds for ANY pair of fuels with which the analysis accepts (the constants 64 and |p|+1 of
+   no_arg_write_mask are not part of the trusted base) *)
+Theorem C15_analysis_sound_any_fuel : forall p lf d f mask fd argvals st0 st',
+  verdict_with_fuel p lf d f mask = true ->
+  nth_error p f = Some fd ->
+  (forall x, env st0 x = call_env (f_nparams fd) argvals x) ->
+  separated (args_locs mask argvals) mask argvals ->
+  (forall l, In l (args_locs mask argvals) -> l < next st0) ->
+  exec p (f_body fd) st0 st' ->
+  forall l, In l (args_locs mask argvals) -> heap st' l = heap st0 l.
+Proof. exact analysis_sound_any_fuel. Qed.
+Print Assumptions C15_analysis_sound_any_fuel.
+
+(* monotone in the abstract state: accepted from argument values avs_b => for every sufficiently large
+   loop fuel accepted from all pointwise smaller argument values, with a pointwise smaller answer *)
+Theorem C15_analysis_monotone : forall p dynok d lfb f avs_b rb, afun p dynok lfb d f avs_b = Some rb ->
+  exists N, forall lfa, N <= lfa -> forall avs_a, avs_le avs_a avs_b ->
+    exists ra, afun p dynok lfa d f avs_a = Some ra /\ ple ra rb.
+Proof. exact afun_mono. Qed.
+Print Assumptions C15_analysis_monotone.
+
+Theorem C15_verdict_mask_monotone : forall p lf d f mb,
+  verdict_with_fuel p lf d f mb = true ->
+  exists N, forall lf', N <= lf' -> forall ma, mask_le ma mb -> verdict_with_fuel p lf' d f ma = true.
+Proof. exact verdict_mask_monotone. Qed.
+Print Assumptions C15_verdict_mask_monotone.
+
+(* the quantifier over the fuel is necessary: with the same loop fuel monotonicity in the state is false *)
+Theorem C15_same_fuel_monotonicity_refuted :
+  mask_le [true; false] [true; true] /\
+  verdict_with_fuel mono_cex_prog 0 1 0 [true; true] = true /\
+  verdict_with_fuel mono_cex_prog 0 1 0 [true; false] = false /\
+  verdict_with_fuel mono_cex_prog 1 1 0 [true; false] = true.
+Proof. exact same_fuel_monotonicity_refuted. Qed.
+Print Assumptions C15_same_fuel_monotonicity_refuted.
+
+Example C15_verdict_mask_monotone_nonvacuous :
+  verdict_with_fuel mono_cex_prog LOOP_FUEL 1 0 [true; true] = true /\
+  forall lf', 1 <= lf' -> verdict_with_fuel mono_cex_prog lf' 1 0 [true; false] = true.
+Proof. exact verdict_mask_monotone_nonvacuous. Qed.
+
+(* ---- run-time callables (CallDyn).  The candidate callees of koala's run-time callables (every koala
+   function / closure used as a first-class value: A* heuristics and adjacency closures, the Bloch
+   Hamiltonian closure, distance functions, the phase-diagram computation) have all been verified with
+   every formal and every captured variable tainted, so [dyn_ok prog] is the membership test of that
+   set and not the fail-closed constant false; the theorems above (C15_koala_pure, C15_each_...,
+   C15_history_independent) therefore cover executions in which a run-time callable IS any of these
+   closures applied to anything. *)
+Theorem C15_koala_dyn_targets_verified :
+  prog_targets prog <> [] /\
+  forallb (target_verified prog (prog_targets prog)) (prog_targets prog) = true.
+Proof. exact koala_dyn_targets_verified. Qed.
+Print Assumptions C15_koala_dyn_targets_verified.
+
 (* ---- non-vacuity: the semantics does express mutation, and an accepted function may write *)
 Definition demo_prog : program :=
   [ Fun 1 (Seq (Bind 9 Fresh) (Seq (Write 9) (Bind 0 (Alias 9))));     (* y = x.copy(); y[0] = 1; return y *)
@@ -114,5 +247,32 @@ Proof.
   - apply (E_Write demo_prog 8 demo_st0 (fun l => if Nat.eqb l 0 then 5 else 0)).
     simpl. intros l H. destruct (Nat.eqb l 0) eqn:E; [|reflexivity].
     apply Nat.eqb_eq in E. exfalso. apply H. left. symmetry. exact E.
+  - simpl. discriminate.
+Qed.
+
+(* CallDyn: a run-time callable whose candidate callee writes its formal is rejected (fail closed), and the
+   semantics does contain the execution in which the caller's argument is mutated through it *)
+Definition dyn_demo_prog : program :=
+  [ Fun 1 (CallDyn [9] [1] [8]);      (* def f(x): return h(x)   with h possibly g *)
+    Fun 1 (Write 8) ].                 (* def g(x): x[0] = 1 *)
+Definition dyn_demo_ok : program :=
+  [ Fun 1 (CallDyn [9] [1] [8]);
+    Fun 1 (Seq (Bind 9 Fresh) (Seq (Write 9) (Bind 0 (Alias 9)))) ].
+
+Example C15_calldyn_nonvacuous :
+  no_arg_write dyn_demo_prog 0 = false /\ no_arg_write dyn_demo_ok 0 = true /\
+  exists st', exec dyn_demo_prog (CallDyn [9] [1] [8]) demo_st0 st' /\ heap st' 0 <> heap demo_st0 0.
+Proof.
+  split; [vm_compute; reflexivity|]. split; [vm_compute; reflexivity|].
+  exists (CS (upd_list (env demo_st0) [9] [empty_val]) (fun l => if Nat.eqb l 0 then 5 else 0) 1). split.
+  - apply (E_CallDyn dyn_demo_prog [9] [1] [8] 1 (Fun 1 (Write 8)) demo_st0
+             (CS (call_env 1 [CV [0] [0]]) (fun l => if Nat.eqb l 0 then 5 else 0) 1) [CV [0] [0]] [empty_val]).
+    + left; reflexivity.
+    + reflexivity.
+    + simpl.
+      apply (E_Write dyn_demo_prog 8 (CS (call_env 1 [CV [0] [0]]) (fun _ => 0) 1) (fun l => if Nat.eqb l 0 then 5 else 0)).
+      simpl. intros l H. destruct (Nat.eqb l 0) eqn:E; [|reflexivity].
+      apply Nat.eqb_eq in E. exfalso. apply H. left. symmetry. exact E.
+    + constructor; [|constructor]. split; intros l H; inversion H.
   - simpl. discriminate.
 Qed.
